@@ -64,7 +64,11 @@ def run(ctx):
     # ---- kernel form & coverage
     ctx.rule("kernel-form+coverage")
     body = f.need(B + "::same_position")
-    eff = [k for k in f.bodies if k.startswith(B + "::same_position::") and f.bodies[k].kind == "Fn"]
+    from .names import names as role_names
+    try:
+        eff = [role_names(f).effective_ep]
+    except Exception:
+        eff = [k for k in f.bodies if k.startswith(B + "::same_position::") and f.bodies[k].kind == "Fn"]
     hwe = B + "::hash_without_ep"
     paths = sym.SymExec(f, body, inline=lambda n: False if (n in eff or n == hwe) else None).run()
     ctx.saw("%s: %d paths" % (body.key, len(paths)))
